@@ -74,7 +74,7 @@ func (w *World) lemmaObligations(lm *Lemma) (obls []*Obligation, err error) {
 	env := &SpecEnv{names: names, pkg: lm.Pkg, w: w}
 	mkObl := func(name string, guard, goal *Term, src string) {
 		goal = ex.skolemGoal(goal)
-		o := &Obligation{Name: lm.Pkg + ".lemma." + lm.Name + "#" + name, Kind: "lemma", Func: lm.Pkg + ".lemma." + lm.Name, Guard: guard, Goal: goal, NDecl: len(ex.decls), Unfold: lm.Unfold, Props: lm.Props, Src: src, ex: ex, Inputs: ex.inputs}
+		o := &Obligation{Name: lm.Pkg + ".lemma." + lm.Name + "#" + name, Kind: "lemma", Func: lm.Pkg + ".lemma." + lm.Name, Guard: guard, Goal: goal, NDecl: len(ex.decls), Unfold: lm.Unfold, Props: lm.Props, Src: src, ex: ex, Inputs: ex.inputs, Reveal: lm.Reveal}
 		if o.Unfold == 0 {
 			o.Unfold = 1
 		}
